@@ -622,7 +622,7 @@ fn create_doc_without_preceding_comment(
         comment_store,
         expression,
         &e.argument,
-        false,
+        true,
       )),
     ),
     expr::E::IfElse(e) => create_doc_for_if_else(heap, comment_store, e),
